@@ -944,9 +944,7 @@ class RpcServer:
                     md = _current_request_metadata.get()
                     self._check_protocol_version(md.get(PROTOCOL_VERSION_KEY) if md is not None else None)
                 except ProtocolVersionError as exc:
-                    err_schema = info.result_schema if info.method_type == MethodType.UNARY else _EMPTY_SCHEMA
-                    _write_error_stream(transport.writer, err_schema, exc, server_id=self._server_id)
-                    self._discard_refused_stream_input(transport, info, static_shm or cached_shm)
+                    self._refuse_call(transport, info, exc, static_shm or cached_shm)
                     return
 
             # Request validation. Both steps are answered with a typed error
@@ -968,9 +966,7 @@ class RpcServer:
                 )
                 _validate_params(info.name, kwargs, info.param_types)
             except Exception as exc:
-                err_schema = info.result_schema if info.method_type == MethodType.UNARY else _EMPTY_SCHEMA
-                _write_error_stream(transport.writer, err_schema, exc, server_id=self._server_id)
-                self._discard_refused_stream_input(transport, info, static_shm or cached_shm)
+                self._refuse_call(transport, info, exc, static_shm or cached_shm)
                 return
 
             # Determine the SHM segment for this call's data plane (resolving
@@ -1014,10 +1010,10 @@ class RpcServer:
             _current_call_stats.reset(stats_token)
             _current_request_id.reset(token)
 
-    def _discard_refused_stream_input(
-        self, transport: RpcTransport, info: RpcMethodInfo, shm: ShmSegment | None = None
+    def _refuse_call(
+        self, transport: RpcTransport, info: RpcMethodInfo, exc: BaseException, shm: ShmSegment | None = None
     ) -> None:
-        """Consume the input stream a client sends after a refused header-less stream call.
+        """Answer a call that is refused before dispatch with an error stream.
 
         A stream method that declares no header gives the client nothing to
         read before it writes its first input batch (a tick, an exchange input,
@@ -1026,25 +1022,43 @@ class RpcServer:
         stream is consumed here it is read as the next *request*: it carries no
         ``vgi_rpc.method`` and is answered with a protocol error, and from then
         on every call on the connection receives its predecessor's response.
-
-        Inputs the client routed through shared memory are freed as they are
-        discarded: the receiving side owns the release of an input region, and
-        nothing else will ever reference these.
-
         Streams that declare a header are unaffected -- their client reads the
         error in place of the header and never opens an input stream.
+
+        The first item of that input stream is taken *before* the error is
+        written.  The order matters for inputs
+        routed through shared memory: the allocation table has no lock and
+        relies on the two sides taking turns.  While the client waits for the
+        answer to the input it has just written it does not touch the table, so
+        that is when the refused input's region can be freed; once the error is
+        out the client is free to start its next call and allocate, and a free
+        arriving then races with it (lost update: a vanished or resurrected
+        table entry).  The client cannot see the difference - it reads the
+        response to a header-less stream call only after writing its first
+        input (or an EOS).
         """
-        if info.method_type != MethodType.STREAM or info.header_type is not None:
-            return
-        with contextlib.suppress(pa.ArrowInvalid, OSError, EOFError, StopIteration):
-            reader = ValidatedReader(ipc.open_stream(transport.reader), self._ipc_validation)
-            while True:
-                batch, custom_metadata = reader.read_next_batch_with_custom_metadata()
-                if shm is not None and custom_metadata is not None and is_shm_pointer_batch(batch, custom_metadata):
-                    offset_bytes = custom_metadata.get(SHM_OFFSET_KEY)
-                    if offset_bytes is not None:
-                        with contextlib.suppress(ValueError):
-                            shm.free(int(offset_bytes))
+        err_schema = info.result_schema if info.method_type == MethodType.UNARY else _EMPTY_SCHEMA
+        reader: ValidatedReader | None = None
+        if info.method_type == MethodType.STREAM and info.header_type is None:
+            with contextlib.suppress(pa.ArrowInvalid, OSError, EOFError, StopIteration):
+                reader = ValidatedReader(ipc.open_stream(transport.reader), self._ipc_validation)
+                self._discard_one_refused_input(reader, shm)
+        with contextlib.suppress(BrokenPipeError, OSError):
+            _write_error_stream(transport.writer, err_schema, exc, server_id=self._server_id)
+        if reader is not None:
+            with contextlib.suppress(pa.ArrowInvalid, OSError, EOFError, StopIteration):
+                while True:
+                    self._discard_one_refused_input(reader, shm)
+
+    @staticmethod
+    def _discard_one_refused_input(reader: ValidatedReader, shm: ShmSegment | None) -> None:
+        """Read one batch of a refused call's input stream and free its shared-memory region, if any."""
+        batch, custom_metadata = reader.read_next_batch_with_custom_metadata()
+        if shm is not None and custom_metadata is not None and is_shm_pointer_batch(batch, custom_metadata):
+            offset_bytes = custom_metadata.get(SHM_OFFSET_KEY)
+            if offset_bytes is not None:
+                with contextlib.suppress(ValueError):
+                    shm.free(int(offset_bytes))
 
     def _prepare_method_call(
         self, info: RpcMethodInfo, kwargs: dict[str, object]
@@ -1191,9 +1205,7 @@ class RpcServer:
             status = "error"
             error_type = _log_method_error(protocol_name, info.name, self._server_id, exc)
             error_message = _truncate_error_message(exc)
-            with contextlib.suppress(BrokenPipeError, OSError):
-                _write_error_stream(transport.writer, _EMPTY_SCHEMA, exc, server_id=self._server_id)
-            self._discard_refused_stream_input(transport, info, shm)
+            self._refuse_call(transport, info, exc, shm)
             return
         finally:
             if status == "error":
